@@ -29,10 +29,16 @@ def run(chk, w):
     if not all(stores.values()):
         raise AnalysisBroken("derived train fields not found")
     both = {f.name for f, s in stores[DERIVED[0]]} & {f.name for f, s in stores[DERIVED[1]]}
-    derive = [n for n in both if any(s.bb.id in body for f, s in stores[DERIVED[0]] if f.name == n for body in P.functions[n].loops().values())
-              and any(rules.call_reaches(P, c, {"g_array_index"}) or c.callee for c in P.functions[n].calls())]
-    # derivation = writes both fields inside a loop and calls the position query
-    derive = [n for n in derive if any("position" in (c.callee or "") for c in P.functions[n].calls())]
+    # derivation routine by role: a parameterless routine outside parser/reset/creation code that writes both derived fields of
+    # entries of the shared train list inside a loop
+    derive = []
+    for n in sorted(both):
+        f = P.functions[n]
+        if "parser" in f.relfile or _is_reset(P, f) or f.params:
+            continue
+        sts = [s for g, s in stores[DERIVED[0]] if g is f and not _is_creation(P, f, s)]
+        if sts and any(s.bb.id in body for s in sts for body in f.loops().values()):
+            derive.append(n)
     if len(derive) != 1:
         raise AnalysisBroken("derivation routine not identified uniquely: %s" % derive)
     dfn = P.functions[derive[0]]
@@ -57,7 +63,7 @@ def run(chk, w):
         if all(s.bb.id in body for s in on_st):
             head = h if head is None or len(body) < len(loops[head]) else head
     if head is None:
-        chk.violation("C08-DERIVE", dfn.name, "loop", "%s:%d" % (dfn.relfile, dfn.line), "on_track is not assigned inside the loop over the trains")
+        chk.abstain("C08-DERIVE", "on_track is not assigned inside one loop over the trains (different algorithm): per-iteration rule not applicable", "%s:%d" % (dfn.relfile, dfn.line))
     else:
         first = dfn.bmap[head].insts[0]
         body = loops[head]
@@ -72,7 +78,10 @@ def run(chk, w):
         else:
             chk.ok("C08-DERIVE", 1, {"on_track": "assigned on every path of every iteration"})
         # orientation dominates / accompanies every 'true' assignment
-        for s in on_st:
+        or_in_loop = bool(or_st) and all(o.bb.id in body for o in or_st)
+        if not or_in_loop:
+            chk.abstain("C08-DERIVE", "orientation is not assigned in the loop that assigns on_track (different algorithm): pairing rule not applicable", first.loc())
+        for s in (on_st if or_in_loop else []):
             if (rules.const_of(dfn, s["val"]) or 0) & 1:
                 if any(dfn.dominates(o, s) or dfn.dominates(s, o) and dfn.postdominates(o, s) for o in or_st):
                     chk.ok("C08-DERIVE", 1, {"orientation": "assigned together with on_track = true"})
@@ -104,7 +113,9 @@ def run(chk, w):
                 def leaves(x):
                     return x.op == "ret" or (x.op == "call" and x.callee in locks.REL and x.args[0].get("name") in ("trackstate_segments_mutex", "trackstate_trains_mutex"))
                 p = rules.exists_path(f, c, leaves, lambda x: x.op == "call" and x.callee == dfn.name)
-                if p and not _callers_derive_after(P, f, dfn):
+                if p and not _callers_derive_after(P, f, dfn) and _fol_sensitive(P, f, dfn) is None:
+                    chk.ok("C08-FOL", 1, {"mutation": c.loc(), "by": "path-sensitive walk: the derivation is skipped only on paths without a pending mutation"})
+                elif p and not _callers_derive_after(P, f, dfn):
                     chk.violation("C08-FOL", f.name, c.callee, c.loc(), "the address list is changed at line %d and the mutexes can be released without re-deriving train presence (%s)" % (c.line, rules.path_text(p)))
                 else:
                     chk.ok("C08-FOL", 1, {"mutation": c.loc()})
@@ -270,3 +281,96 @@ def _callers_derive_after(P, f, dfn):
         if rules.exists_path(cf, ci, leaves, lambda x: x.op == "call" and x.callee == dfn.name):
             return False
     return True
+
+
+SEG_LOCKS = ("trackstate_segments_mutex", "trackstate_trains_mutex")
+
+
+def _mutation_summary(P, f, dfn, depth=0):
+    """outcomes of a helper as a set of (mutated-and-not-yet-derived, return value or None), by a constant-propagating walk"""
+    key = (f.name, dfn.name)
+    if key in _SUMMARY_MEMO:
+        return _SUMMARY_MEMO[key]
+    _SUMMARY_MEMO[key] = {(True, None)}      # recursion guard: pessimistic
+    out = set()
+    W = pathwalk.Walker(f, cells=_bool_cells(f), max_states=60000)
+
+    def on_inst(i, u, facts):
+        if i.op == "call":
+            if i.callee in MUTATORS and addr_array_of(P, f, i):
+                return [True]
+            if i.callee == dfn.name:
+                return [False]
+            g = P.functions.get(i.callee) if i.callee else None
+            if g is not None and g.blocks and depth < 2 and g is not f and _reaches_mutation(P, g):
+                return [pathwalk.Fork(u or m, {("ret", i.id): r}) for (m, r) in _mutation_summary(P, g, dfn, depth + 1)]
+        return None
+
+    def on_exit(ret, u, facts):
+        out.add((u, W.ev(ret["val"], facts) if "val" in ret.d else None))
+    W.walk(False, on_inst, on_exit)
+    if W.truncated:
+        out.add((True, None))
+    _SUMMARY_MEMO[key] = out
+    return out
+
+
+_SUMMARY_MEMO = {}
+
+
+def _bool_cells(f):
+    """only _Bool locals are tracked: loop counters would make the walk unbounded"""
+    from ..pathwalk import tracked_cells
+    t = tracked_cells(f)
+    return {k: a for k, a in t.items() if f.is_bool_alloca(a) or a["aty"] == "i1"}
+
+
+def _reaches_mutation(P, g, _memo={}):
+    if g.name in _memo:
+        return _memo[g.name]
+    _memo[g.name] = False
+    r = any((c.callee in MUTATORS and addr_array_of(P, g, c)) or
+            (c.callee in P.functions and P.functions[c.callee].blocks and _reaches_mutation(P, P.functions[c.callee])) for c in g.calls())
+    _memo[g.name] = r
+    return r
+
+
+def _fol_sensitive(P, f, dfn, depth=0):
+    """path-sensitive version of FOL for the function that holds the mutexes: returns None when every path from a mutation (direct or inside
+    a helper) to the release of the segment/train mutexes runs the derivation, taking boolean 'changed' flags and helper results into account;
+    otherwise the instruction where a pending mutation leaves the critical section.  For a helper, all callers are examined."""
+    releases_here = any(c.callee in locks.REL and c.args[0].get("name") in SEG_LOCKS for c in f.calls())
+    if not releases_here:
+        cs = P.callers().get(f.name, [])
+        if not cs or depth > 2:
+            return f.blocks[0].insts[0]
+        for cf, ci in cs:
+            r = _fol_sensitive(P, cf, dfn, depth + 1)
+            if r is not None:
+                return r
+        return None
+    bad = []
+    W = pathwalk.Walker(f, cells=_bool_cells(f), max_states=120000)
+
+    def on_inst(i, u, facts):
+        if i.op == "call":
+            if i.callee in MUTATORS and addr_array_of(P, f, i):
+                return [True]
+            if i.callee == dfn.name:
+                return [False]
+            if i.callee in locks.REL and i.args[0].get("name") in SEG_LOCKS:
+                if u:
+                    bad.append(i)
+                return [False]
+            g = P.functions.get(i.callee) if i.callee else None
+            if g is not None and g.blocks and g is not f and _reaches_mutation(P, g):
+                return [pathwalk.Fork(u or m, {("ret", i.id): r}) for (m, r) in _mutation_summary(P, g, dfn)]
+        return None
+
+    def on_exit(ret, u, facts):
+        if u:
+            bad.append(ret)
+    W.walk(False, on_inst, on_exit)
+    if W.truncated and not bad:
+        return f.blocks[0].insts[0]
+    return bad[0] if bad else None
